@@ -49,6 +49,7 @@ impl Parser {
     #[verifier::external_body] fn consume(&mut self, kind: TokenKind, message: &str) ensures final(self).events == old(self).events, old(self).had_error ==> final(self).had_error, final(self).had_error || final(self).previous.kind == kind, final(self).previous.kind is Identifier ==> !reserved(final(self).previous.source@) { unimplemented!() }
     #[verifier::external_body] fn match_token(&mut self, kind: TokenKind) -> bool ensures final(self).events == old(self).events, old(self).had_error ==> final(self).had_error { unimplemented!() }
     #[verifier::external_body] fn error(&mut self, message: &str) ensures final(self).events == old(self).events, final(self).had_error, final(self).previous == old(self).previous, final(self).current == old(self).current { unimplemented!() }
+    #[verifier::external_body] fn error_at_current(&mut self, message: &str) ensures final(self).events == old(self).events, final(self).had_error, final(self).previous == old(self).previous, final(self).current == old(self).current { unimplemented!() }
     #[verifier::external_body] fn identifier_constant(&mut self, token: &Token) -> (r: u16) ensures r as int == const_of(token.source@), final(self).events == old(self).events, final(self).had_error == old(self).had_error, final(self).previous == old(self).previous, final(self).current == old(self).current { unimplemented!() }
     // declares the variable named by `previous` (unit compiler: Parser::declare_variable)
     #[verifier::external_body] fn declare_variable(&mut self) ensures final(self).events == old(self).events.push(Ev::Declare(old(self).previous.source@)), old(self).had_error ==> final(self).had_error, final(self).previous == old(self).previous, final(self).current == old(self).current { unimplemented!() }
@@ -59,7 +60,7 @@ impl Parser {
     #[verifier::external_body] fn emit_byte(&mut self, byte: u8)
         ensures final(self).events == (if byte == opcode_byte(OpCode::FinishImport) { old(self).events.push(Ev::Finish) } else { old(self).events }), final(self).had_error == old(self).had_error, final(self).previous == old(self).previous, final(self).current == old(self).current { unimplemented!() }
 
-    //@fn file=yarel/src/compiler.rs path=Parser::import_statement
+    //@fn file=yarel/src/compiler.rs path=Parser::import_statement props=C14,C03
     //@  rewrite R21 R29 R28
     //@  subst "(|| Some(Path::new(&path.source).file_name()?.to_str()?))()" => "path_file_name(&path.source)"
     //@  subst "scanner::is_reserved_word(filename)" => "is_reserved_word(filename)"
